@@ -4,6 +4,7 @@ import (
 	"bytes"
 	"fmt"
 	"os"
+	"strings"
 
 	"verif/harness/internal/core"
 	"verif/harness/internal/gen"
@@ -17,6 +18,41 @@ func init() {
 	run.Registry["C03"].Findings = map[string]func() (bool, string){
 		"torn-primary-tail-then-gc": reproTornPrimaryTail,
 	}
+}
+
+func init() {
+	run.Registry["C10"].Findings = map[string]func() (bool, string){
+		"resume-remap-with-dangling-entry": reproResumeDangling,
+	}
+}
+
+// reproResumeDangling: crash cases from a fixed stream whose legacy store has
+// dangling index entries; the finding reproduces if a resumed upgrade leaves an
+// entry pointing at location 0 (fsck problem, contents unaffected).
+func reproResumeDangling() (bool, string) {
+	tried := 0
+	for i := 0; i < 400 && tried < 12; i++ {
+		c := run.Ctx{Prop: "C10", Tier: "quick", Seed: 424242, Index: 100000 + i}
+		cc := c10Gen(c, true)
+		if cc.ls.Dangling == 0 {
+			continue
+		}
+		tried++
+		res := c10CrashExplore(c, cc)
+		for _, v := range res.Violations {
+			if strings.HasPrefix(v.Sig, "c10-crash:fsck+dangling@index.") {
+				return true, fmt.Sprintf("legacy store #%d with %d dangling entries: %s", i, cc.ls.Dangling, truncStr(v.Msg, 160))
+			}
+		}
+	}
+	return false, fmt.Sprintf("%d legacy stores with dangling entries resumed cleanly", tried)
+}
+
+func truncStr(s string, n int) string {
+	if len(s) > n {
+		return s[:n] + "..."
+	}
+	return s
 }
 
 func mhKey(d []byte) []byte { return gen.EncodeMH(0x12, d) }
